@@ -44,6 +44,12 @@ def gen_program(rng, nfiles):
                     expr = rng.choice(["%d." % v, "0x%x" % v, "%o" % v])
                 lines.append("%s %s %s" % (nm, "==" if export else "=", expr))
                 consts.append(nm)
+        if rng.random() < 0.35:
+            # text whose length in bytes depends on the output charset, with codes that are known only further down,
+            # in front of labels (their listed addresses must still be where their marker words lie)
+            k = rng.randrange(len(lines) + 1)
+            lines.insert(k, ".asciz \"%s\"<cr%d><lf%d>\n.even" % (rng.choice(["Привет", "ab", "Ж", "Жук и еж"]), fi, fi))
+            lines.append("cr%d = 15\nlf%d = 12" % (fi, fi))
         if rng.random() < 0.5:
             lines.insert(0, "1: .word 0\n2$: .word 0")   # local labels are never listed
         files.append((fname, "\n".join(lines) + "\n"))
@@ -124,6 +130,9 @@ def run(ctx):
                     f.write(txt)
             before = impl.snapshot_dir(d)
             linked = [fn for fn, _ in files if fn != "defs.mac"]
+            charset = rng.choice(["bk", "bk", "utf-8", "koi8-r"])
+            if charset != "bk":
+                argv_extra = argv_extra + ["--charset", charset]
             res = impl.run_cli(linked + ["--lst"] + argv_extra, cwd=d)
             after = impl.snapshot_dir(d)
             new = sorted(k for k in after if before.get(k) != after[k])
@@ -146,7 +155,7 @@ def run(ctx):
             text = after[lsts[0]].decode("utf-8")
             # the same sources compiled in-process give the reference symbol table and image
             abs_files = [(os.path.join(d, fn), txt) for fn, txt in files if fn != "defs.mac"]
-            r = impl.assemble(abs_files, want_symbols=True)
+            r = impl.assemble(abs_files, want_symbols=True, charset=charset)
             if r.outcome != "ok":
                 continue
             comp = r.compiler
